@@ -254,8 +254,10 @@ def finish(prop, tier, seed, cfg, w, results, extra_results, t0, update_lock):
         ev["coverage"]["evaluations"] = sum(b.get("evaluations", 0) for b in bounded)
         ev["coverage"]["distinct_nontrivial"] = sum(b.get("distinct_nontrivial", 0) for b in bounded)
         ev["coverage"]["rule"] = " | ".join(b.get("rule", "") for b in bounded)
-    os.makedirs(os.path.join(VERIF, "evidence"), exist_ok=True)
-    json.dump(ev, open(os.path.join(VERIF, "evidence", f"{prop}.json"), "w"), indent=1, default=str)
+    # evidence of a run against a scratch copy (PYVC_SRC set by the developer tools) never overwrites the committed record
+    evdir = os.path.join(VERIF, "evidence") if os.environ.get("PYVC_SRC", "/repo/src") == "/repo/src" else os.path.join(VERIF, ".tmp", "evidence_scratch")
+    os.makedirs(evdir, exist_ok=True)
+    json.dump(ev, open(os.path.join(evdir, f"{prop}.json"), "w"), indent=1, default=str)
     for l in known_lines:
         print(l)
     print(f"{prop} {tier}: {discharged}/{len(names)} obligations discharged ({instances} path instances), "
